@@ -54,18 +54,13 @@ pub fn read_pairs(
         .collect::<StdResult<Vec<PairInfo>>>()
 }
 
-// this will set the first key after the provided key, by appending a 1 byte
+// the exclusive range bound is the key of the last pair already returned
 fn calc_range_start(start_after: Option<[AssetInfoRaw; 2]>) -> Option<Vec<u8>> {
     start_after.map(|asset_infos| {
         let mut asset_infos = asset_infos.to_vec();
         asset_infos.sort_by(|a, b| a.as_bytes().cmp(b.as_bytes()));
 
-        let mut v = [asset_infos[0].as_bytes(), asset_infos[1].as_bytes()]
-            .concat()
-            .as_slice()
-            .to_vec();
-        v.push(1);
-        v
+        [asset_infos[0].as_bytes(), asset_infos[1].as_bytes()].concat()
     })
 }
 
